@@ -351,6 +351,11 @@ static const char *fx_build(fx_t *F)
     if (vnacal_new_add_single_reflect_m(F->vnpR, F->mp, 1, 2, VNACAL_SHORT,
 		1) != 0)
 	return "add to vnpR";
+    /* and a standard tabulated over a limited band: a frequency vector
+       outside that band must then be refused */
+    if (vnacal_new_add_single_reflect_m(F->vnpR, F->mp, 1, 2, F->p_vector,
+		1) != 0)
+	return "add vector standard to vnpR";
 
     /* 16-term objects holding a standard whose S matrix is incomplete */
     F->vnpT16 = vnacal_new_alloc(F->vcp, VNACAL_T16, 2, 2, NF);
